@@ -216,7 +216,7 @@ def _main(prop: str, tier: str, seed: int, a: Any) -> int:
 	bounded: list[dict[str, Any]] = []
 	machinery: list[str] = []
 	# ---- failed obligations
-	n_last_resort = 0
+	last_resort_candidates: list[tuple[ObResult, str]] = []
 
 	def last_resort_still_open(r: ObResult) -> bool:
 		"""One more attempt, alone, with four times the budgets: a time-out under load must not turn into a reported violation."""
@@ -272,13 +272,10 @@ def _main(prop: str, tier: str, seed: int, a: Any) -> int:
 		elif r.res.verdict == 'refuted' and (key in baseline or (r.ob.kind.startswith('raises') and f'{strip_inst(r.ob.func)}|raises-clause' in baseline)):
 			violations.append(Violation(prop, f'obligation discharged on the unchanged tree now has a counter-model: {r.ob.clause}', r.ob.func, r.ob.name, r.ob.clause, None,
 				native.detail if native else 'model not concretisable', (json.dumps(jsonable(r.res.model))[:1500] if r.res.model else '') + '\n' + r.res.detail[:1500], key))
-		elif r.res.verdict == 'unknown' and key in baseline and changed_sources(prop) and n_last_resort < 3:
-			# discharged on the committed baseline, no longer discharged (after the serial retry and one more attempt alone with four-fold budgets) now that the source text differs: reported, marked as not refuted
-			n_last_resort += 1
-			if not last_resort_still_open(r):
-				continue
-			violations.append(Violation(prop, f'obligation discharged on the unchanged tree is no longer discharged after the change of {", ".join(changed_sources(prop))[:200]} (no counter-model: not refuted): {r.ob.clause}',
-				r.ob.func, r.ob.name, r.ob.clause, None, 'no model', r.res.detail[:1500], key))
+		elif r.res.verdict == 'unknown' and key in baseline and changed_sources(prop):
+			# discharged on the committed baseline, no longer discharged now that the source text differs: a candidate for the last-resort attempt below
+			last_resort_candidates.append((r, key))
+			undecided.append(f'{r.ob.name}: {r.res.verdict} ({r.res.detail[:120]})')
 		else:
 			undecided.append(f'{r.ob.name}: {r.res.verdict} ({r.res.detail[:120]})')
 	# ---- engine errors: function left the subset / disappeared -> bounded twin only
@@ -314,6 +311,16 @@ def _main(prop: str, tier: str, seed: int, a: Any) -> int:
 			violations.append(Violation(prop, x.violation.get('what', x.detail), x.violation.get('function', x.name), x.name, x.violation.get('clause', ''), x.violation.get('inputs'), x.detail, '', x.finding_key or x.name))
 		elif not x.ok:
 			machinery.append(f'extra check {x.name} failed without a witness: {x.detail}')
+	# ---- obligations of the baseline that are no longer discharged after a source change: only when nothing else reports a violation, at most two of them get one
+	# more attempt, alone, with four-fold budgets; what is still open then is reported (as not refuted)
+	if not [v for v in violations if match_known(v, active_known) is None]:
+		for r, key in last_resort_candidates[:2]:
+			if last_resort_still_open(r):
+				undecided[:] = [u for u in undecided if not u.startswith(r.ob.name + ':')]
+				violations.append(Violation(prop, f'obligation discharged on the unchanged tree is no longer discharged after the change of {", ".join(changed_sources(prop))[:200]} (no counter-model: not refuted): {r.ob.clause}',
+					r.ob.func, r.ob.name, r.ob.clause, None, 'no model', r.res.detail[:1500], key))
+			else:
+				undecided[:] = [u for u in undecided if not u.startswith(r.ob.name + ':')]
 	# ---- restore contracts mutated for known findings
 	for c in contracts:
 		if c.key in saved_requires:
